@@ -27,5 +27,5 @@ def main(tier):
     chk.run("R-DEPTWIN", P.deptwin, r, s, cx.sites, floor=2)
     chk.run("R-SKIPLOSS", T.skiploss, r, s, cx.sites, modules=("dependency_checker.py",), floor=4)
     chk.run("R-NAMEDKINDS", P.namedkinds, r, s, cx.sites, floor=10)
-    chk.run("R-DEPORDER", B.deporder, r, floor=3)
+    chk.run("R-DEPORDER", B.deporder, r, clauses=("text", "ok"), floor=3)
     return chk.finish()
